@@ -48,4 +48,8 @@ theorem holds_conditional_entries_from_config (c : ClientCfg) (cmdEnv hostEnv : 
     ∀ e ∈ buildEnv Facts.env c cmdEnv hostEnv, cutKey e ∈ conditionalKeys → e ∈ cmdEnv ∨ e ∈ configured c :=
   conditional_entries_from_config _ facts_good c cmdEnv hostEnv
 
+theorem holds_stdin_is_host_stdin (c : ClientCfg) (cmdEnv hostEnv : List Bytes) (s : Stdin) :
+    (launch Facts.env c cmdEnv hostEnv s).stdin = .host :=
+  (stdin_is_host_stdin _ facts_good c cmdEnv hostEnv s).1
+
 end GoPlugin.Instance.C17
